@@ -63,6 +63,15 @@ def shl64 (x s : Nat) : Nat := (x * 2^s) % 2^64
 /-- `uint(x)` / `uint64(x)` of an `int` (two's complement wrap-around for negative x) -/
 def uintOfInt (x : Int) : Nat := (x % 2^64).toNat
 
+/-! ### int64 (values are `Int` in [-2^63, 2^63); `+ -` are emitted with an explicit `wrapS64`) -/
+
+/-- two's complement wrap-around into [-2^63, 2^63) -/
+def wrapS64 (x : Int) : Int := (x + 2^63) % 2^64 - 2^63
+/-- `x ^ y` on int64: bitwise xor of the two's complement representations -/
+def xorS64 (x y : Int) : Int := wrapS64 (Int.ofNat ((x % 2^64).toNat ^^^ (y % 2^64).toNat))
+/-- a Go string (bytes) as a Lean `String`, for error messages built by concatenation -/
+def strOf (s : GoString) : String := String.ofList (s.map (fun b => Char.ofNat b.toNat))
+
 /-! ### *big.Int read as an exact integer -/
 
 def bigIsUint64 (x : Int) : Bool := decide (0 ≤ x ∧ x < 2^64)
